@@ -171,6 +171,50 @@ func C07(c *fw.Ctx) {
 			sane(c, model.Render(parenAll(prog)), "", fmt.Sprintf("cyclic|%d|%d", ci, ui), false)
 		}
 	}
+	// every heap graph of two containers with two slots each (slot: scalar, container 1, container 2),
+	// each container an array or an object: all patterns of self-reference, mutual reference and sharing
+	slotVals := []string{"1", "g1", "g2"}
+	for kinds := 0; kinds < 4; kinds++ {
+		for g := 0; g < 81; g++ {
+			if !c.Mine() {
+				continue
+			}
+			mkC := func(name string, isObj bool) *model.N {
+				if isObj {
+					return model.Var(name, model.Obj([]string{"p", "q"}, []*model.N{num(0), num(0)}))
+				}
+				return model.Var(name, model.Arr(num(0), num(0)))
+			}
+			store := func(name string, isObj bool, slot int, v *model.N) *model.N {
+				if isObj {
+					return model.ExprS(model.PAsg(id(name), []string{"p", "q"}[slot], v))
+				}
+				return model.ExprS(model.IAsg(id(name), num(float64(slot)), v))
+			}
+			o1, o2 := kinds&1 != 0, kinds&2 != 0
+			prog := []*model.N{mkC("g1", o1), mkC("g2", o2)}
+			gg := g
+			for slot := 0; slot < 4; slot++ {
+				sv := slotVals[gg%3]
+				gg /= 3
+				var v *model.N
+				if sv == "1" {
+					v = num(1)
+				} else {
+					v = id(sv)
+				}
+				if slot < 2 {
+					prog = append(prog, store("g1", o1, slot, v))
+				} else {
+					prog = append(prog, store("g2", o2, slot-2, v))
+				}
+			}
+			prog = append(prog, model.Print(id("g1")), model.Print(id("g2")), model.Print(model.Arr(id("g1"), id("g2"), id("g1"))),
+				model.Print(model.Bin("+", model.Str("s"), id("g1"))), model.Print(model.Bin("==", id("g1"), id("g2"))), model.Print(model.Bin("==", id("g1"), id("g1"))),
+				model.Print(model.Obj([]string{"k", "m"}, []*model.N{id("g2"), id("g2")})), T("done"))
+			sane(c, model.Render(parenAll(prog)), "", fmt.Sprintf("heap-graph|%d", kinds), false)
+		}
+	}
 	// depth and size
 	depths := []int{100, 1000, 10000}
 	kw := func(s string) string { return s }
